@@ -15,7 +15,9 @@ from sim.base import BaseCheck
 
 STRS = ['Ab', 'ab', 'a b', 'a  b', u'é', 'e', 'x', 'y']
 STR_PARTNER = {'Ab': 'ab', 'ab': 'Ab', 'a b': 'a  b', 'a  b': 'a b', u'é': 'e', 'e': u'é'}
-BAD_FILTERS = ['and and', '==', 'n == ', '(t1', 't1 and', '->x', '"str"', 'n === 3']
+BAD_FILTERS = ['and and', '==', 'n == ', '(t1', 't1 and', '->x', '"str"', 'n === 3',
+               # well-formed, compiled and cached, but failing on the first row they are evaluated on (units differ, int < str)
+               'q==-1degF', 'q<1m', 'n<"x"']
 HIST_ROWS = 56
 
 
